@@ -257,5 +257,6 @@ pub fn def() -> PropDef {
         assumptions: &["function words are the single-token entries of the language tables at the pinned commit (harness/src/tables.rs)", "'A outranks B' = A is a hit and precedes B if B is one"],
         spaces: vec![Space { name: "rules", decode, plan: |t| Plan::Random(t.n(100_000, 2_000_000)) }],
         differential: false,
+        floors: &[("instances", 5.0)],
     }
 }
